@@ -154,7 +154,8 @@ class YncaProtocol(serial.threaded.LineReader):
             try:
                 message = self._send_queue.get(True, self.KEEP_ALIVE_INTERVAL)
 
-                if message is _EXIT:
+                if message is _EXIT or not self.connected:
+                    # Also stop when the connection got lost; whatever is still queued must not be sent anymore
                     stop = True
                 elif message is _KEEP_ALIVE:
                     message = "@SYS:MODELNAME=?"  # This message is suggested by YNCA spec for keep-alive
@@ -174,12 +175,12 @@ class YncaProtocol(serial.threaded.LineReader):
                 self._send_keepalive()
 
     def raw(self, raw_data: str):
-        if self._send_queue:
+        if self._send_queue and self.connected:
             self._send_queue.put(raw_data)
             self.num_commands_sent += 1
 
     def put(self, subunit: str, funcname: str, parameter: str):
-        if self._send_queue:
+        if self._send_queue and self.connected:
             self._send_queue.put(f"@{subunit}:{funcname}={parameter}")
             self.num_commands_sent += 1
 
